@@ -208,7 +208,13 @@ impl BlockScope {
         let binders = candidates.iter().try_fold(
             im::HashMap::<VarName, DefId>::new(),
             |binders, candidate| {
-                candidate.binder().binders(&resolver.bitter).into_iter().try_fold(
+                // `binders` is a hash map; visit one pattern's binders in
+                // definition order so that the duplicate reported first does
+                // not depend on hash iteration order.
+                let mut contributed =
+                    candidate.binder().binders(&resolver.bitter).into_iter().collect::<Vec<_>>();
+                contributed.sort_by_key(|(_, definition)| *definition);
+                contributed.into_iter().try_fold(
                     binders,
                     |binders, (name, definition)| -> Result<_> {
                         if let Some(previous) = binders.get(&name) {
